@@ -133,4 +133,11 @@ def filterEntries (subtree : Str) (excl : Str → Bool) : List IndexEntry → Pr
 def listEntries (b : Nat) (subtree : Str) (excl : Str → Bool) : Prog (List IndexEntry) := do
   filterEntries subtree excl (← stitchAll b)
 
+/-- `Archive::iter_entries(selection, subtree, exclude)` collected: resolve the version, open it
+(`StoredTree::open`), then stitch. -/
+def listVersion (sel : BandSelection) (subtree : Str) (excl : Str → Bool) : Prog (List IndexEntry) := do
+  let b ← resolveBandId sel
+  bandOpen b
+  listEntries b subtree excl
+
 end Conserve
